@@ -30,6 +30,9 @@ type Conn struct {
 	id uint64
 	address string
 	addresses map[uint64]string
+	// Addresses learned from other members' lists. They are used to reach a node
+	// but do not make it a member (guarded by addressesMu)
+	addressHints map[uint64]string
 	addressesMu sync.RWMutex
 	conns map[uint64]*grpc.ClientConn
 	connsMu sync.RWMutex
@@ -46,6 +49,7 @@ func NewConn(id uint64, address string, tlsCertFile string) (*Conn, error) {
 		id: id,
 		address: address,
 		addresses: make(map[uint64]string),
+		addressHints: make(map[uint64]string),
 		addressesMu: sync.RWMutex{},
 		conns: make(map[uint64]*grpc.ClientConn),
 		connsMu: sync.RWMutex{},
@@ -135,6 +139,7 @@ func (this *Conn) AddNode(id uint64, address string) {
 		return
 	}
 
+	delete(this.addressHints, id)
 	if _, exists := this.addresses[id]; !exists {
 		this.addresses[id] = address
 		this.sendNodesChangeNotification(&nodesChange {
@@ -145,12 +150,33 @@ func (this *Conn) AddNode(id uint64, address string) {
 	}
 }
 
+// Remembers where a node can be reached without making it a member. Another member's
+// list can be ahead of or behind the membership changes this node has applied, only
+// the membership log decides who is listed.
+func (this *Conn) AddNodeAddressHint(id uint64, address string) bool {
+	this.addressesMu.Lock()
+	defer this.addressesMu.Unlock()
+
+	if address == "" {
+		return false
+	}
+	if _, exists := this.addresses[id]; exists {
+		return false
+	}
+	if existing, exists := this.addressHints[id]; exists && existing == address {
+		return false
+	}
+	this.addressHints[id] = address
+	return true
+}
+
 func (this *Conn) RemoveNode(id uint64) {
 	this.addressesMu.Lock()
 	defer this.addressesMu.Unlock()
 	this.connsMu.Lock()
 	defer this.connsMu.Unlock()
 
+	delete(this.addressHints, id)
 	if _, exists := this.addresses[id]; exists {
 		delete(this.addresses, id)
 		if conn, exists := this.conns[id]; exists {
@@ -212,6 +238,9 @@ func (this *Conn) getAddress(id uint64) (string, error) {
 	defer this.addressesMu.RUnlock()
 
 	if address, exists := this.addresses[id]; exists {
+		return address, nil
+	}
+	if address, exists := this.addressHints[id]; exists {
 		return address, nil
 	}
 
